@@ -14,29 +14,37 @@ CONSTANTS MaxCalls,     \* bound on the number of Next calls per behaviour
           AfterEnd,     \* number of further calls explored after the end
           HostWrites,   \* TRUE: the host may write HostVals into case variables
           MaxHostSets,
-          EmitBeh       \* TRUE: print maximal behaviours for replay
+          EmitBeh,      \* TRUE: print maximal behaviours for replay
+          MaxSnaps,     \* snapshots taken per behaviour (at any point of the run)
+          MaxRestores   \* restores per behaviour (into the runner in any state)
 
 Cases == ndJsonDeserialize("cases.ndjson")
 
-VARIABLES c, s, hist
-vars == <<c, s, hist>>
+VARIABLES c, s, hist,
+          snaps     \* snapshots taken so far: <<[snap, eproj]>>; eproj = what the runner was at that node entry
+vars == <<c, s, hist, snaps>>
 
 P == Cases[c]
 
 Init == /\ c \in 1..Len(Cases)
         /\ s = InitRunner(Cases[c])
         /\ hist = <<>>
+        /\ snaps = <<>>
 
 IsNext(h) == h.ev = "next"
 Calls == SelectSeq(hist, IsNext)
 NCalls == Len(Calls)
-NHost == Len(hist) - NCalls
+IsHostSet(h) == h.ev = "hostset"
+NHost == Len(SelectSeq(hist, IsHostSet))
+IsRestore(h) == h.ev = "restore"
+NRestores == Len(SelectSeq(hist, IsRestore))
 IsOos == s.out.k = "oos"
 
 \* calls made after the first reported end
 RECURSIVE CountTrailingEnds(_, _)
-CountTrailingEnds(q, n) == IF n = 0 \/ q[n].out.k # "end" THEN 0 ELSE 1 + CountTrailingEnds(q, n - 1)
-EndsSeen == CountTrailingEnds(Calls, NCalls)
+CountTrailingEnds(q, n) == IF n = 0 \/ q[n].ev # "next" \/ q[n].out.k # "end" THEN 0
+                           ELSE 1 + CountTrailingEnds(q, n - 1)
+EndsSeen == CountTrailingEnds(hist, Len(hist))
 RECURSIVE TrailingWaits(_, _)
 TrailingWaits(q, n) == IF n = 0 \/ q[n].out.k # "waiting" THEN 0 ELSE 1 + TrailingWaits(q, n - 1)
 
@@ -53,7 +61,7 @@ DoCall(in) ==
                            pend |-> (s.cmd.st = "run"),
                            out |-> t.out, writes |-> t.writes, fcalls |-> t.fcalls, ccalls |-> t.ccalls,
                            vars |-> VarsOf(t), visits |-> VisitsOf(t)])
-  /\ c' = c
+  /\ c' = c /\ snaps' = snaps
 
 CallAct ==
   /\ MayCall
@@ -71,9 +79,24 @@ HostAct ==
   /\ \E i \in DOMAIN P.vars, v \in HostVals :
        /\ s' = HostSet(s, P.vars[i], v)
        /\ hist' = Append(hist, [ev |-> "hostset", var |-> P.vars[i], val |-> v])
-  /\ c' = c
+  /\ c' = c /\ snaps' = snaps
 
-Next == CallAct \/ HostAct
+\* ---- snapshots (C07): taken at any point, restored into the runner in any state
+SnapArrOf(sn) == [node |-> sn.node, vars |-> [i \in DOMAIN P.vars |-> sn.vars[P.vars[i]]],
+                  visits |-> [i \in DOMAIN P.nodes |-> sn.visits[P.nodes[i].title]], extra |-> 0]
+SnapAct ==
+  /\ ~IsOos /\ Len(snaps) < MaxSnaps /\ NCalls < MaxCalls
+  /\ snaps' = Append(snaps, [snap |-> Snapshot(s), eproj |-> s.eproj])
+  /\ hist' = Append(hist, [ev |-> "snap", h |-> Len(snaps) + 1, snap |-> SnapArrOf(Snapshot(s))])
+  /\ UNCHANGED <<c, s>>
+RestoreAct ==
+  /\ ~IsOos /\ NRestores < MaxRestores /\ NCalls < MaxCalls
+  /\ \E h \in DOMAIN snaps :
+       /\ s' = Restore(P, s, snaps[h].snap)
+       /\ hist' = Append(hist, [ev |-> "restore", h |-> h, ok |-> RestoreOk(P, snaps[h].snap)])
+  /\ UNCHANGED <<c, snaps>>
+
+Next == CallAct \/ HostAct \/ SnapAct \/ RestoreAct
 Spec == Init /\ [][Next]_vars
 
 \* ------------------------------------------------------ C01: refinement of Sem
@@ -92,7 +115,7 @@ Flat(q, i, f) == IF i > Len(q) THEN <<>> ELSE q[i][f] \o Flat(q, i + 1, f)
 \* Every program, every choice sequence, every completion schedule: the machine
 \* presents exactly what the declarative semantics prescribes (no host writes).
 FlowRefinesSem ==
-  (NHost = 0 /\ ~IsOos /\ NCalls > 0) =>
+  (NHost = 0 /\ NRestores = 0 /\ ~IsOos /\ NCalls > 0) =>
     \* the machine has presented Len(Shown) outputs; while a command is pending it
     \* has also executed everything up to that command
     LET m == SemRun(P, Choices, CmdErrs, IF s.cmd.st = "run" THEN -1 ELSE Len(Shown)) IN
@@ -138,7 +161,7 @@ WaitingOnlyWhilePending == (NCalls > 0 /\ Calls[NCalls].out.k = "waiting") => s.
 
 \* ------------------------------------------------------------ C03: variables
 \* (action properties over the machine state itself)
-IsHostStep == Len(hist') = Len(hist) + 1 /\ hist'[Len(hist')].ev = "hostset"
+IsHostStep == Len(hist') = Len(hist) + 1 /\ hist'[Len(hist')].ev # "next"   \* host write, snapshot or restore
 TypeStable == [][IsHostStep \/ \A v \in DOMAIN s.store :
                     s.store[v].t # "u" => s'.store[v].t = s.store[v].t]_vars
 \* One Next call may run several statements, so "a failing statement leaves every
@@ -178,6 +201,23 @@ UnknownIsZero ==
 VisitsMonotone == [][\A t \in DOMAIN s.visits : s'.visits[t] >= s.visits[t]]_vars
 OnlyJumpsChangeVisits ==
   [][\A t \in DOMAIN s.visits : s'.visits[t] - s.visits[t] = s'.jout[t] - s.jout[t] \/ s'.visits[t] = s.visits[t]]_vars
+
+\* ------------------------------------------------------------ C07: snapshots
+IsRestoreStep == Len(hist') = Len(hist) + 1 /\ hist'[Len(hist')].ev = "restore"
+\* restoring makes the runner exactly what the original was at that node entry: the machine is
+\* deterministic in Proj, so equal projections give equal futures for every choice sequence
+RestoreResumes == [][IsRestoreStep => Proj(s') = snaps[hist'[Len(hist')].h].eproj]_vars
+\* ... and an immediately taken snapshot equals the restored one
+ResnapshotEqual == [][IsRestoreStep => Snapshot(s') = snaps[hist'[Len(hist')].h].snap]_vars
+\* a snapshot is a value: nothing done afterwards changes it
+SnapshotsImmutable == [][\A i \in DOMAIN snaps : snaps'[i] = snaps[i]]_vars
+\* restoring a snapshot that names an unknown node fails and changes nothing
+UnknownNodeChangesNothing ==
+  LET bogus == [vars |-> s.store, node |-> "no such node", visits |-> s.visits] IN
+  ~RestoreOk(P, bogus) /\ Restore(P, s, bogus) = s
+\* a snapshot taken right at a node entry restores to exactly the present state
+SnapshotAtEntryIsIdentity ==
+  (~IsOos /\ Proj(s) = s.eproj) => Proj(Restore(P, s, Snapshot(s))) = Proj(s)
 
 \* ------------------------------------------------------------------ emission
 Leaf == IsOos \/ NCalls >= MaxCalls \/ EndsSeen > AfterEnd
